@@ -107,7 +107,7 @@ def run(ctx: core.Ctx):
     ]
     ec.selftest()
     try:
-        core.run_given(ctx, ec.st_case(), body_for(ctx), max_examples=ctx.n(1500, 10000))
+        core.run_given(ctx, ec.st_case(), body_for(ctx), max_examples=ctx.n(1200, 10000))
     finally:
         core.reset_config()
 
